@@ -70,11 +70,33 @@ let sql_crosscheck (a : ostring list) : unit =
     let (r', _) = ref_step !rs (parse_sop op) in rs := r';
     if db_abs !db <> !rs then failwith "extracted Sql model and reference store disagree (contradicts C18_store_refines)") a
 
+(* the statement List builds (coq/model/SqlWhere.v list_stmt), in the harness's canonical token form *)
+let wfield_str = function FWf -> "workflow_name" | FFid -> "foreign_id" | FStatus -> "status" | FState -> "run_state" | FRun -> "run_id"
+let stmt_str (q : sqlstmt) : ostring =
+  String.concat "," (List.map (function KLp -> "(" | KRp -> ")" | KAnd -> "and" | KOr -> "or"
+                                       | KEq f -> "eq:" ^ wfield_str f | KNotNull f -> "nn:" ^ wfield_str f) q.q_cond)
+  ^ "|" ^ String.concat "," (List.map (function KOrderBy d -> "ob:created_at:" ^ (if d then "desc" else "asc") | KLimit -> "lim" | KOffset -> "off") q.q_tail)
+  ^ "|" ^ String.concat "," (List.map sz q.q_args)
+
 let sq_model (a : ostring list) : ostring list =
   sql_crosscheck a;
   with_created := false;
   let r = (try ms_model a with e -> with_created := true; raise e) in
   with_created := true;
+  (* each List answer is followed by the statement text; the extracted SQL reading of that statement over the reference
+     store's rows must give the reference answer (contradicts C18_list_statement_meaning otherwise) *)
+  let rs = ref rstore0 in
+  let r = List.map2 (fun op o ->
+    let sop = parse_sop op in
+    let out = (match sop with
+      | SList (wf, off, lim, desc, f) ->
+        let q = list_stmt wf off lim desc f in
+        (match sql_select q !rs.rs_recs, ref_step !rs sop with
+         | Some l, (_, ObList l') when l = l' -> ()
+         | _ -> failwith "extracted sql_select of list_stmt and the reference List disagree (contradicts C18_list_statement_meaning)");
+        o ^ "|" ^ stmt_str q
+      | _ -> o) in
+    rs := fst (ref_step !rs sop); out) a r in
   r @ ["log:ok"]
 let sqt_model_ref : (ostring list -> ostring list) ref = ref (fun _ -> [])
 
